@@ -112,6 +112,16 @@ normalize_token.register(
 )
 
 
+def _sort_key(key):
+    # str() of an unordered container depends on its iteration order: sort
+    # such keys by their normalized form instead
+    if isinstance(key, _IDENTITY_DISPATCH):
+        return key
+    if isinstance(key, (frozenset, set, tuple)):
+        return normalize_token(key)
+    return key
+
+
 @normalize_token.register((types.MappingProxyType, dict))
 def normalize_dict(d):
     with tokenize_lock:
@@ -120,7 +130,10 @@ def normalize_dict(d):
         _SEEN[id(d)] = len(_SEEN), d
         try:
             return "dict", _normalize_seq_func(
-                sorted(d.items(), key=lambda kv: (str(kv[0]), type(kv[0]).__name__))
+                sorted(
+                    d.items(),
+                    key=lambda kv: (str(_sort_key(kv[0])), type(kv[0]).__name__),
+                )
             )
         finally:
             _SEEN.pop(id(d), None)
@@ -137,14 +150,14 @@ def normalize_set(s):
     # time you recreate the set (even within the same interpreter).
     # In most other cases, set ordering is consistent within the same interpreter.
     return "set", _normalize_seq_func(
-        sorted(s, key=lambda x: (str(x), type(x).__name__))
+        sorted(s, key=lambda x: (str(_sort_key(x)), type(x).__name__))
     )
 
 
 @normalize_token.register(frozenset)
 def normalize_frozenset(s):
     return "frozenset", _normalize_seq_func(
-        sorted(s, key=lambda x: (str(x), type(x).__name__))
+        sorted(s, key=lambda x: (str(_sort_key(x)), type(x).__name__))
     )
 
 
